@@ -315,6 +315,8 @@ func ComposeBuilders(selector Selector, config CompositionConfig) RewriteRule {
 
 		newBuilders := make([]ast.Builder, 0, len(builders))
 		composableBuilders := make(map[string]ast.Builders)
+		// types in the order in which they are first met: the result must not depend on map iteration order
+		var panelTypes []string
 
 		for _, builder := range builders {
 			// the builder isn't selected: let's leave it untouched
@@ -329,10 +331,15 @@ func ComposeBuilders(selector Selector, config CompositionConfig) RewriteRule {
 			}
 
 			panelType := schema.Metadata.Identifier
+			if _, seen := composableBuilders[panelType]; !seen {
+				panelTypes = append(panelTypes, panelType)
+			}
 			composableBuilders[panelType] = append(composableBuilders[panelType], builder)
 		}
 
-		for panelType, buildersForType := range composableBuilders {
+		for _, panelType := range panelTypes {
+			buildersForType := composableBuilders[panelType]
+
 			composedBuilders, err := composeBuilderForType(schemas, builders, config, panelType, sourceBuilder, buildersForType)
 			if err != nil {
 				return nil, fmt.Errorf("could not apply ComposeBuilders builder veneer: %w", err)
